@@ -6,11 +6,13 @@ verification, $VERIF_REPO or /repo — into Gallina (`Module Src`, over coq/Lib/
 and has the verified shape / equals the verified model, and RE-STATES the property's theorems for `Src.<Func>`.
 coqc checks the result (vcheck.coq_eval); every theorem must be closed under the global context.
 
-src_static(...) returns fn(tier) -> (obligations, discharged, problems, coverage) for a property's `static=[...]`.
+src_static(...) returns fn(tier) -> (obligations, discharged, problems, coverage); the instances are registered in a
+property's `CFG["secondary"]` list (lib/runner.py: an ADDITIONAL tie — counted and reported, a NOTE when it alone is
+broken, supporting detail next to the failing input when the dynamic correspondence finds one; registered under
+`CFG["static"]` the same function would make a broken tie a VIOLATION ... no-failing-input-found).
 obligations = the theorems of the generated file.  When the translator rejects the source ("no longer in the
 translatable subset") or a fixed script no longer goes through, the function returns a ("tie", ...) problem naming
-`go2coq <Func>`; the runner reports VIOLATION ... no-failing-input-found unless the dynamic correspondence of the
-same run finds a failing input (for a property-breaking change it does, and that input is reported instead).
+`go2coq <Func>` with the generated text and the tail of Coq's error.
 
 A template may end with a part introduced by a line containing `---- INFORMATIONAL`: byte equality with the
 hand-written model.  If only that part fails the run is OK and the coverage records `drift` (same policy as the
@@ -200,6 +202,6 @@ def src_static(pid, relfile, funcs, template, libs, model_name):
 C16_SRC = src_static("C16", "util/strutil/strutil.go", ["ShellEscape", "ShellEscapeExceptTilde"], "C16.v.in",
                      ["Proofs/GoRtP.vo", "Proofs/ShellEscapeGenP.vo"], "Model/ShellEscape.v")
 C17_SRC = src_static("C17", "util/fsutil/path.go", ["ResolveUrlPath"], "C17.v.in",
-                     ["Proofs/GoRtP.vo", "Proofs/UrlPathP.vo"], "Model/UrlPath.v (resolve)")
+                     ["Proofs/GoRtP.vo", "Proofs/UrlPathGenP.vo"], "Model/UrlPath.v (resolve)")
 C09_SRC = src_static("C09", "util/strutil/strutil.go", ["Underscore"], "C09.v.in",
                      ["Proofs/GoRtP.vo", "Proofs/ConfigP.vo"], "Model/Config.v (underscore)")
